@@ -11,9 +11,10 @@
           ->  ok <columns> <rows> (target ...) <bytes left>  |  fail (target ...)  |  crash <kind>
      decseq   <auto t|f> <build> <rev> zones (target ...) (xBLOCK ...)
           ->  seq <one parenthesised decblock result per block, the targets carried over>
-   In a [fail] result the contents of a target whose DecodeColumn failed are printed as [?]
-   (the implementation leaves a partially decoded column there; the comparison skips it). *)
-From CH Require Import model.Sx model.Columns model.Block model.TypeStr model.GlueCol model.GlueTy model.Results.
+   A [fail] result is  fail (target ...) ((<Rows()> <t|f>) ...):  every target as it is afterwards - the one whose
+   DecodeState / DecodeColumn failed holds the partially decoded column of model/DecPart.v - and, per target, what
+   Rows() reports and whether Row(i) returns for every i below it (-1 t for a ColAuto that holds no column). *)
+From CH Require Import model.Sx model.Columns model.Block model.TypeStr model.GlueCol model.GlueTy model.DecPart model.Results.
 Open Scope N_scope.
 Open Scope list_scope.
 
@@ -86,13 +87,15 @@ Fixpoint norm_cdata (d : cdata) : cdata :=
   | DBool vs => DBool (map (fun x => if x =? 0 then 0 else 1) vs)
   | DArr o d' => DArr o (norm_cdata d')
   | DNullable o d' => DNullable o (norm_cdata d')
-  | DLowCard vs d' k ks => DLowCard vs (norm_cdata d') k ks
+  | DLowCard vs d' k ks =>
+    (* ColLowCardinality.Reset keeps the unexported key width; with no values and no keys the harness prints it as 0 *)
+    DLowCard vs (norm_cdata d') (match vs, ks with [], [] => 0 | _, _ => k end) ks
   | DMap o a b => DMap o (norm_cdata a) (norm_cdata b)
   | DTuple ds => DTuple (map norm_cdata ds)
   | _ => d
   end.
 
-(* [hide]: print the contents as ? *)
+(* [hide]: print the contents as ? (kept for transcripts of older harnesses; nothing is hidden any more) *)
 Definition pr_target (hide : bool) (t : rtarget) : sx :=
   let data d := if hide then asym "?" else pr_cdata (norm_cdata d) in
   match rt_col t with
@@ -108,11 +111,75 @@ Fixpoint pr_targets (i : nat) (hidden : option nat) (ts : list rtarget) : list s
     pr_target (match hidden with Some j => Nat.eqb i j | None => false end) t :: pr_targets (S i) hidden ts'
   end.
 
+(* Row(i) returns: [DecPart.readableb] evaluated without materialising a row whose offsets point far beyond the
+   element column (a half-decoded Array / Map can hold any offsets): such a row panics on its first missing element *)
+Definition leafy (t : ty) : bool :=
+  match t with
+  | TArr _ | TMap _ _ | TNullable _ | TTuple _ | TNamed _ _ => false
+  | _ => true
+  end.
+
+Fixpoint row_ret (t : ty) (d : cdata) (i : nat) : bool :=
+  (* every element idx of [s, e) can be read; for a leaf column readability is downward closed: the last one decides *)
+  let range (t' : ty) (d' : cdata) (s e : N) : bool :=
+    if leafy t' then row_ret t' d' (N.to_nat (e - 1))
+    else forallb (row_ret t' d') (seq (N.to_nat s) (N.to_nat e - N.to_nat s)) in
+  match t, d with
+  | TArr t', DArr offs d' =>
+    match nth_error offs i with
+    | None => false
+    | Some e =>
+      let s := match i with O => 0 | S j => nth j offs 0 end in
+      if (to_i64 (e mod 2 ^ 64) <=? to_i64 (s mod 2 ^ 64))%Z then true            (* for idx := start; idx < end *)
+      else if (to_i64 (s mod 2 ^ 64) <? 0)%Z then false
+      else if rows t' d' <? e then false
+      else range t' d' s e
+    end
+  | TMap tk tv, DMap offs dk dv =>
+    match nth_error offs i with
+    | None => false
+    | Some e =>
+      let s := match i with O => 0 | S j => nth j offs 0 end in
+      if (to_i64 (e mod 2 ^ 64) <=? to_i64 (s mod 2 ^ 64))%Z then true
+      else if (to_i64 (s mod 2 ^ 64) <? 0)%Z then false
+      else if (rows tk dk <? e) || (rows tv dv <? e) then false
+      else range tk dk s e && range tv dv s e
+    end
+  | TNullable t', DNullable nulls d' => match nth_error nulls i with Some _ => row_ret t' d' i | None => false end
+  | TTuple ts, DTuple ds => all2b (fun t0 d0 => row_ret t0 d0 i) ts ds
+  | TNamed _ t', _ => row_ret t' d i
+  | TFix name _, DFix _ =>
+    (* ColDateTime64.Row panics while no precision is set (a column built without one that no Infer has reached) *)
+    if bytes_eqb name (s2b "DateTime64") then false
+    else match row t d i with Some _ => true | None => false end
+  | _, _ => match row t d i with Some _ => true | None => false end
+  end.
+Definition readable_fast (t : ty) (d : cdata) : bool :=
+  forallb (row_ret t d) (seq 0 (N.to_nat (rows t d))).
+
+(* ColFixedStr.Row slices Buf: below a wrapper a row beyond len(Buf) but within its capacity is returned; capacity is
+   not modelled, so for such targets the flag is printed ? by both sides *)
+Fixpoint has_fstr (t : ty) : bool :=
+  match t with
+  | TFixedStr _ => true
+  | TArr d | TNullable d | TLowCard d | TNamed _ d => has_fstr d
+  | TMap k v => has_fstr k || has_fstr v
+  | TTuple ts => existsb has_fstr ts
+  | _ => false
+  end.
+Definition loose_fstr (t : ty) : bool := match t with TFixedStr _ => false | _ => has_fstr t end.
+
+Definition pr_acc (t : rtarget) : sx :=
+  match rt_col t with
+  | CTyped ty d | CAutoHeld _ ty d =>
+    L [an (rows ty d); asym (if loose_fstr ty then "?" else if readable_fast ty d then "t" else "f")]
+  | CAutoNil => L [az (-1); asym "t"]
+  end.
+
 Definition pr_block_out (o : block_out) : list sx :=
   match bo_out o with
   | BOk rest => [asym "ok"; az (bo_cols o); az (bo_rows o); L (pr_targets 0 None (bo_targets o)); an (blen rest)]
-  | BFail i k _ =>
-    [asym "fail"; L (pr_targets 0 (match k with FDecode => Some i | _ => None end) (bo_targets o))]
+  | BFail i k _ => [asym "fail"; L (pr_targets 0 None (bo_targets o)); L (map pr_acc (bo_targets o))]
   | BCrash c => [asym "crash"; crash_sym c]
   end.
 
